@@ -599,7 +599,7 @@ class C12(Prop):
         if "unsupported" in obs:
             return "HARNESS-ERROR generator produced an unsupported combination: " + obs["unsupported"]
         dt, form, f = case["dt"], case["form"], case["f"]
-        eps = EPS[dt]
+        eps = EPS.get(dt)
         sv, sc = obs["simd"], obs["scalar"]
         for name, o in (("simd", sv), ("scalar", sc)):
             if not o.get("hv"):
